@@ -322,6 +322,7 @@ func runC17(c *Ctx) {
 	// ---- PKCS#12
 	runC17P12(c, rk1, rsaC1)
 	runC17P12Std(c)
+	runC17P12Fixtures(c)
 }
 
 type sdCheck struct {
